@@ -585,6 +585,9 @@ pub fn run(tier: Tier, seed: u64) -> i32 {
     ctx.par_random(n, 260, 13, |tape, l| {
         let (g, pool, steps) = gen_case(tape);
         debug_assert!(wf(&g));
+        if pool.iter().any(|s| too_expensive(&g, &s.chars().collect::<Vec<_>>(), 4_000, l)) {
+            return Ok(());
+        }
         // all orders of the pool, handle and mode cycling with the order index
         let total = 3usize.pow(olen as u32);
         for o in 0..total {
